@@ -56,10 +56,11 @@ func (m c5Model) String() string {
 }
 
 type c5Node struct {
-	id   int
-	lg   zerolog.Logger
-	m    c5Model
-	path string
+	id       int
+	lg       zerolog.Logger
+	m        c5Model
+	path     string
+	fromWith bool // produced by With()...Logger(): UpdateContext may be applied to it
 }
 
 type c5Write struct {
@@ -83,8 +84,9 @@ type c5Run struct {
 	nodes []*c5Node
 	sinks []*c5Sink
 	ctxs  []context.Context
-	tasks map[int]*c5Task
-	nEv   int
+	tasks  map[int]*c5Task
+	nEv    int
+	single bool
 }
 
 func (r *c5Run) task() *c5Task {
@@ -221,6 +223,9 @@ func (r *c5Run) genEvent() c5Event {
 	ev := c5Event{id: fmt.Sprintf("e%d", r.nEv)}
 	ev.level = []zerolog.Level{zerolog.InfoLevel, zerolog.ErrorLevel, zerolog.DebugLevel, zerolog.WarnLevel, zerolog.NoLevel}[r.ch.Intn(5)]
 	ev.ops = genOps(r.ch, r.ch.Intn(4), 1, ev.id+"_")
+	if r.ch.Chance(1, 4) {
+		ev.ops = append(ev.ops, fop{Kind: fProbeObj + r.ch.Intn(3), Key: ev.id + "_probe"})
+	}
 	ev.probes = r.ch.Chance(1, 2)
 	ev.fin = r.ch.Intn(2)
 	return ev
@@ -284,7 +289,7 @@ func (r *c5Run) emitChecked(e *zerolog.Event, ev c5Event, m c5Model, what string
 	}
 	for _, s := range seen {
 		own := m.ctxID
-		strict := strings.HasPrefix(s.where, "hook") || s.where == "Object"
+		strict := strings.HasPrefix(s.where, "hook") || s.where == "Object" || s.where == "EmbedObject"
 		if s.id == own || (!strict && s.id == 0) {
 			continue
 		}
@@ -306,7 +311,23 @@ func (r *c5Run) genCtxOps(tag string) []fop {
 	if r.ch.Chance(1, 3) {
 		ops = append(ops, fop{Kind: fStr, Key: tag + "pad", S: strings.Repeat("p", 100+r.ch.Intn(300))})
 	}
+	if r.ch.Chance(1, 4) {
+		ops = append(ops, fop{Kind: fProbeObj + r.ch.Intn(3), Key: tag + "probe"})
+	}
 	return ops
+}
+
+// checkSeen verifies what marshalers saw through GetCtx while a logger context was
+// being built: the parent's Go context or the background context, never another
+// event's.
+func (r *c5Run) checkSeen(own int, what string) {
+	t := r.task()
+	for _, s := range t.seen {
+		if s.id != own && s.id != 0 {
+			zsim.Fail("C05.ctx", "%s: %s saw Go context #%d through GetCtx; the logger's is #%d (0 = background, -1 = nil)", what, s.where, s.id, own)
+		}
+	}
+	t.seen = nil
 }
 
 func (r *c5Run) derive(p *c5Node) *c5Node {
@@ -316,8 +337,24 @@ func (r *c5Run) derive(p *c5Node) *c5Node {
 	switch ch.Weighted(6, 2, 2, 3, 3, 2, 1, 3) {
 	case 0:
 		ops := r.genCtxOps(tag)
+		c := p.lg.With()
+		what := "With"
+		if ch.Chance(1, 6) {
+			// Reset drops the inherited fields (not the Stack flag)
+			c = c.Reset()
+			m.fields = nil
+			if m.stack {
+				m.fields = append(m.fields, nil)
+			}
+			what = "With().Reset"
+		}
 		m.fields = append(m.fields, ops)
-		return r.addNode(applyCtx(p.lg.With(), ops).Logger(), m, fmt.Sprintf("n%d.With(%s)", p.id, opsString(ops)))
+		r.task().seen = nil
+		lg := applyCtx(c, ops).Logger()
+		r.checkSeen(p.m.ctxID, fmt.Sprintf("deriving n%d.%s(%s)", p.id, what, opsString(ops)))
+		n := r.addNode(lg, m, fmt.Sprintf("n%d.%s(%s)", p.id, what, opsString(ops)))
+		n.fromWith = true
+		return n
 	case 1:
 		m.level = []zerolog.Level{zerolog.DebugLevel, zerolog.InfoLevel, zerolog.WarnLevel, zerolog.ErrorLevel}[ch.Intn(4)]
 		return r.addNode(p.lg.Level(m.level), m, fmt.Sprintf("n%d.Level(%v)", p.id, m.level))
@@ -338,19 +375,27 @@ func (r *c5Run) derive(p *c5Node) *c5Node {
 		return r.addNode(p.lg.Output(r.sinks[m.sink]), m, fmt.Sprintf("n%d.Output(sink%d)", p.id, m.sink))
 	case 5:
 		m.ctxID = 1 + ch.Intn(len(r.ctxs)-1)
-		return r.addNode(p.lg.With().Ctx(r.ctxs[m.ctxID]).Logger(), m, fmt.Sprintf("n%d.With().Ctx(#%d)", p.id, m.ctxID))
+		n := r.addNode(p.lg.With().Ctx(r.ctxs[m.ctxID]).Logger(), m, fmt.Sprintf("n%d.With().Ctx(#%d)", p.id, m.ctxID))
+		n.fromWith = true
+		return n
 	case 6:
 		m.stack = true
 		m.fields = append(m.fields, nil)
-		return r.addNode(p.lg.With().Stack().Logger(), m, fmt.Sprintf("n%d.With().Stack()", p.id))
+		n := r.addNode(p.lg.With().Stack().Logger(), m, fmt.Sprintf("n%d.With().Stack()", p.id))
+		n.fromWith = true
+		return n
 	default:
 		// With()...Logger() immediately followed by UpdateContext on the new logger
 		ops := r.genCtxOps(tag)
 		ops2 := r.genCtxOps(tag + "u")
 		m.fields = append(m.fields, ops, ops2)
+		r.task().seen = nil
 		lg := applyCtx(p.lg.With(), ops).Logger()
 		lg.UpdateContext(func(c zerolog.Context) zerolog.Context { zsim.Yield("UpdateContext"); return applyCtx(c, ops2) })
-		return r.addNode(lg, m, fmt.Sprintf("n%d.With(%s)+UpdateContext(%s)", p.id, opsString(ops), opsString(ops2)))
+		r.checkSeen(p.m.ctxID, fmt.Sprintf("deriving n%d.With+UpdateContext", p.id))
+		n := r.addNode(lg, m, fmt.Sprintf("n%d.With(%s)+UpdateContext(%s)", p.id, opsString(ops), opsString(ops2)))
+		n.fromWith = true
+		return n
 	}
 }
 
@@ -359,6 +404,34 @@ type c5Open struct {
 	ev c5Event
 	m  c5Model
 	n  int
+}
+
+// lateUpdate applies UpdateContext (optionally with Reset) to a logger that was
+// produced by With()...Logger() earlier and may meanwhile have Level/Sample/Hook/
+// Output children. Only used in single-task runs: UpdateContext is documented as
+// not safe for concurrent use of that logger.
+func (r *c5Run) lateUpdate(n *c5Node) {
+	ops := r.genCtxOps(fmt.Sprintf("u%d_", r.nEv+len(r.nodes)))
+	reset := r.ch.Chance(1, 3)
+	r.task().seen = nil
+	n.lg.UpdateContext(func(c zerolog.Context) zerolog.Context {
+		if reset {
+			c = c.Reset()
+		}
+		return applyCtx(c, ops)
+	})
+	m := n.m.clone()
+	if reset {
+		m.fields = nil
+		if m.stack {
+			m.fields = append(m.fields, nil)
+		}
+	}
+	m.fields = append(m.fields, ops)
+	n.m = m
+	zsim.Probe("late_update_context")
+	r.checkSeen(n.m.ctxID, fmt.Sprintf("node %d UpdateContext(reset=%v)", n.id, reset))
+	zsim.Log("node %d: UpdateContext(reset=%v, %s)", n.id, reset, opsString(ops))
 }
 
 func (r *c5Run) worker(nOps int) func() {
@@ -372,7 +445,13 @@ func (r *c5Run) worker(nOps int) func() {
 		}
 		for i := 0; i < nOps; i++ {
 			n := r.nodes[ch.Intn(len(r.nodes))]
-			switch ch.Weighted(5, 4, 3, 3, 2) {
+			late := 0
+			if r.single && n.fromWith {
+				late = 2
+			}
+			switch ch.Weighted(5, 4, 3, 3, 2, late) {
+			case 5:
+				r.lateUpdate(n)
 			case 0:
 				r.derive(n)
 			case 1:
@@ -424,7 +503,7 @@ func (r *c5Run) contextBranch() {
 func (c05World) Run(prop string, ch *zsim.Choices, trace bool) *RunResult {
 	r := &c5Run{ch: ch, tasks: map[int]*c5Task{}}
 	oldTS, oldSM := zerolog.TimestampFunc, zerolog.ErrorStackMarshaler
-	defer func() { zerolog.TimestampFunc, zerolog.ErrorStackMarshaler = oldTS, oldSM }()
+	defer func() { zerolog.TimestampFunc, zerolog.ErrorStackMarshaler = oldTS, oldSM; ctxProbe = nil }()
 	summary := ""
 	main := func() {
 		s := zsim.S
@@ -432,6 +511,7 @@ func (c05World) Run(prop string, ch *zsim.Choices, trace bool) *RunResult {
 		zerolog.DisableSampling(false)
 		zerolog.TimestampFunc = func() time.Time { return refTime }
 		zerolog.ErrorStackMarshaler = func(err error) interface{} { return "STACK" }
+		ctxProbe = func(where string) zerolog.LogObjectMarshaler { return c5CtxM{r, where} }
 		for i := 0; i < 4; i++ {
 			r.sinks = append(r.sinks, &c5Sink{r, i})
 		}
@@ -448,6 +528,7 @@ func (c05World) Run(prop string, ch *zsim.Choices, trace bool) *RunResult {
 			r.contextBranch()
 		}
 		nTasks := 1 + ch.Weighted(4, 3, 2, 1)
+		r.single = nTasks == 1
 		nOps := 4 + ch.Intn(30)
 		summary = fmt.Sprintf("tasks=%d ops/task=%d roots=%d", nTasks, nOps, nRoots)
 		zsim.Log("config: %s", summary)
